@@ -151,7 +151,7 @@ def _cidfont(base: str, cmap: str, registry=b"Adobe", ordering=b"Japan1"):
     }
 
 
-def _two_pages(fonts1, c1, fonts2, c2, res1_extra=None, res2_extra=None, direct_fonts=(), finish=None):
+def _two_pages(fonts1, c1, fonts2, c2, res1_extra=None, res2_extra=None, direct_fonts=(), finish=None, catalog_extra=None):
     """Fixed numbering: 1 catalog, 2 pages, 3/4 page, 5.. fonts in order of first use, then contents."""
     d = Doc()
     cat, pages, p1, p2 = d.reserve(), d.reserve(), d.reserve(), d.reserve()
@@ -173,7 +173,7 @@ def _two_pages(fonts1, c1, fonts2, c2, res1_extra=None, res2_extra=None, direct_
     r2 = {"Font": fontres(fonts2), **(res2_extra(d) if res2_extra else {})}
     s1 = d.add(Stream({}, c1))
     s2 = d.add(Stream({}, c2))
-    d.set(cat, {"Type": N("Catalog"), "Pages": pages})
+    d.set(cat, {"Type": N("Catalog"), "Pages": pages, **(catalog_extra or {})})
     d.set(pages, {"Type": N("Pages"), "Kids": [p1, p2], "Count": 2, "MediaBox": [0, 0, 612, 792]})
     d.set(p1, {"Type": N("Page"), "Parent": pages, "Resources": r1, "Contents": s1})
     d.set(p2, {"Type": N("Page"), "Parent": pages, "Resources": r2, "Contents": s2})
@@ -227,23 +227,45 @@ def build_pool() -> dict:
     # -- same object numbers, same resource names, same BaseFont names, different Differences over shared tables
     fa1 = _font("FontA", enc("WinAnsiEncoding", [65, N("alpha"), N("beta")]))
     fa2 = _font("FontA", enc(None, [67, N("gamma")]))  # same BaseFont name, other encoding, second object
+    # fallback paths into the shared tables: a BaseEncoding pdfminer has no table for (falls back to the shared
+    # StandardEncoding table), PDFDocEncoding, and a standard-14 font (shared FONT_METRICS) with its own Differences/Widths
+    fa3 = _font("FontA", enc("MacExpertEncoding", [66, N("kappa")]))
+    fa4 = _font("FontA", enc("PDFDocEncoding", [65, N("lambda")]))
+    fa5 = {"Type": N("Font"), "Subtype": N("Type1"), "BaseFont": N("Helvetica"), "Encoding": enc(None, [68, N("xi")]),
+           "FirstChar": 65, "LastChar": 68, "Widths": [300, 310, 320, 330]}
+    more_a = _text("F3", 12, 72, 560, b"ABCD") + _text("F4", 12, 72, 520, b"ABCD") + _text("F5", 12, 72, 480, b"ABCD")
     pool["diffA"] = _two_pages(
-        {"F1": fa1, "F2": fa2}, b"/CS0 cs 1 0 0 sc\n" + _text("F1", 12, 72, 700, b"ABCD \x80") + _text("F2", 12, 72, 650, b"ABCD"),
-        {"F1": fa2, "F2": fa1}, _text("F1", 12, 72, 700, b"DCBA") + _text("F2", 11, 72, 640, b"AB"),
+        {"F1": fa1, "F2": fa2, "F3": fa3, "F4": fa4, "F5": fa5},
+        b"/CS0 cs 1 0 0 sc\n" + _text("F1", 12, 72, 700, b"ABCD \x80") + _text("F2", 12, 72, 650, b"ABCD") + more_a,
+        {"F1": fa2, "F2": fa1, "F3": fa3}, _text("F1", 12, 72, 700, b"DCBA") + _text("F2", 11, 72, 640, b"AB") + _text("F3", 12, 72, 560, b"BA"),
         res1_extra=lambda d: {"ColorSpace": {"CS0": N("DeviceRGB")}},  # a named colour space ("plain" uses the name without defining it)
     )
     fb1 = _font("FontA", enc("WinAnsiEncoding", [65, N("delta"), N("epsilon")]))
     fb2 = _font("FontA", enc("MacRomanEncoding", [68, N("zeta")]))
+    fb3 = _font("FontA", enc("WinAnsiEncodin", [67, N("mu"), N("nu")]))  # misspelt name: also the StandardEncoding fallback
+    fb4 = _font("FontA", enc("PDFDocEncoding", [66, N("omicron")]))
+    fb5 = {"Type": N("Font"), "Subtype": N("Type1"), "BaseFont": N("Helvetica"), "Encoding": enc("WinAnsiEncoding", [65, N("pi")])}
+    more_b = _text("F3", 12, 72, 560, b"ABCD") + _text("F4", 12, 72, 520, b"ABCD") + _text("F5", 12, 72, 480, b"ABCD")
     pool["diffB"] = _two_pages(
-        {"F1": fb1, "F2": fb2}, _text("F1", 12, 72, 700, b"ABCD \x80") + _text("F2", 12, 72, 650, b"ABCD\x8a"),
-        {"F1": fb2, "F2": fb1}, _text("F1", 12, 72, 700, b"DCBA") + _text("F2", 11, 72, 640, b"AB"),
+        {"F1": fb1, "F2": fb2, "F3": fb3, "F4": fb4, "F5": fb5},
+        _text("F1", 12, 72, 700, b"ABCD \x80") + _text("F2", 12, 72, 650, b"ABCD\x8a") + more_b,
+        {"F1": fb2, "F2": fb1, "F3": fb3}, _text("F1", 12, 72, 700, b"DCBA") + _text("F2", 11, 72, 640, b"AB") + _text("F3", 12, 72, 560, b"DC"),
     )
-    # -- the plain users of the shared tables (would show any pollution)
+    # -- the plain users of the shared tables (would show any pollution): every table through every way of naming it
     pw, ps, ph, pm = _font("FontA", N("WinAnsiEncoding")), _font("FontA"), \
         {"Type": N("Font"), "Subtype": N("Type1"), "BaseFont": N("Helvetica")}, _font("FontC", N("MacRomanEncoding"))
+    pse = _font("FontA", N("StandardEncoding"))     # StandardEncoding by name
+    pxe = _font("FontA", N("MacExpertEncoding"))    # unknown name without Differences: reads the shared fallback table
+    pde = _font("FontA", N("PDFDocEncoding"))
+    psd = _font("FontA", {"Type": N("Encoding")})   # encoding dictionary without BaseEncoding and without Differences
     pool["plain"] = _two_pages(
-        {"F1": pw, "F2": ps}, b"/CS0 cs 1 0 0 sc\n" + _text("F1", 12, 72, 700, b"ABCD \x80") + _text("F2", 12, 72, 650, b"ABCD"),
-        {"F1": ph, "F2": pm}, _text("F1", 12, 72, 700, b"ABCD") + _text("F2", 11, 72, 640, b"ABCD\x8a"),
+        {"F1": pw, "F2": ps, "F3": pse, "F4": pxe},
+        b"/CS0 cs 1 0 0 sc\n" + _text("F1", 12, 72, 700, b"ABCD \x80") + _text("F2", 12, 72, 650, b"ABCD(\\")
+        + _text("F3", 12, 72, 560, b"ABCD") + _text("F4", 12, 72, 520, b"ABCD"),
+        {"F1": ph, "F2": pm, "F3": pde, "F4": psd, "F5": ps},
+        _text("F1", 12, 72, 700, b"ABCD") + _text("F2", 11, 72, 640, b"ABCD\x8a") + _text("F3", 12, 72, 560, b"ABCD")
+        + _text("F4", 12, 72, 520, b"ABCD") + _text("F5", 12, 72, 480, b"DCBA"),
+        catalog_extra={"PageLabels": {"Nums": [0, {"S": N("r")}, 1, {"S": N("a"), "St": 27}]}},  # roman / alpha label tables
     )
     # -- predefined CMaps / shared to-unicode maps
     pool["cjk1"] = _two_pages(
@@ -285,9 +307,16 @@ def build_pool() -> dict:
     )
     # -- inline images
     ii = b"q 40 0 0 40 100 500 cm BI /W 2 /H 2 /CS /G /BPC 8 ID \x00\x40\x80\xff EI Q\n"
+    def ccitt(d):
+        # 8x1 white row, Group 4: V0 then EOFB
+        return {"XObject": {"Im1": d.add(Stream({"Type": N("XObject"), "Subtype": N("Image"), "Width": 8, "Height": 1, "BitsPerComponent": 1,
+                                                 "ColorSpace": N("DeviceGray"), "Filter": N("CCITTFaxDecode"),
+                                                 "DecodeParms": {"K": -1, "Columns": 8, "Rows": 1}}, b"\x80\x08\x00\x80"))}}
+
     pool["inline"] = _two_pages(
-        {"F1": _font("FontA", N("WinAnsiEncoding"))}, _text("F1", 12, 72, 700, b"AB") + ii,
+        {"F1": _font("FontA", N("WinAnsiEncoding"))}, _text("F1", 12, 72, 700, b"AB") + ii + b"q 40 0 0 5 300 500 cm /Im1 Do Q\n",
         {"F1": _font("FontA", N("WinAnsiEncoding"))}, ii + _text("F1", 12, 72, 700, b"CD") + ii.replace(b"100 500", b"200 500"),
+        res1_extra=ccitt,
     )
     # -- distance ties between text boxes
     f = _font("FontA", N("WinAnsiEncoding"), fixed=True)
